@@ -202,6 +202,9 @@ def encode_string(string):
     if string is None:
         return NULL_VALUE
 
+    if not isinstance(string, (str, bytes)):
+        raise RemotingException("Unknown error while url-encoding string")
+
     if not string:
         return EMPTY_VALUE
 
